@@ -67,6 +67,7 @@ func HasRequiredClaims(token Token) bool {
 		len(token.Scopes) == 0 ||
 		token.ConnectionType == "" ||
 		len(token.RegisteredClaims.Audience) == 0 ||
+		token.RegisteredClaims.ExpiresAt == nil ||
 		(*token.RegisteredClaims.ExpiresAt).IsZero() {
 		return false
 	}
